@@ -1,6 +1,7 @@
 //! `vh` — the Rust side of the correspondence check.  Each sub-command reads a line protocol on
 //! stdin, runs the *real* calloop built from /repo's working tree (with `--cfg calloop_verif`),
 //! and prints one observation line per effect on stdout.
+mod core;
 mod tok;
 mod transient;
 
@@ -9,6 +10,7 @@ fn main() {
     let mode = args.get(1).map(|s| s.as_str()).unwrap_or("");
     let code = match mode {
         "tok" => tok::run(),
+        "core" => core::run(&args[2..]),
         "transient" => transient::run(),
         _ => {
             eprintln!("usage: vh tok|...  (line protocol on stdin)");
